@@ -88,6 +88,9 @@ func secondOrderMutants() []classifiedMutant {
 		var ms []gram.Mutant
 		for _, m1 := range gram.Mutants(toks) {
 			for _, m2 := range gram.Mutants(m1.Toks) {
+				if m1.Kind == "badlex" || m2.Kind == "badlex" {
+					continue // malformed lexemes are a first-order matter (one finding per lexeme, see below)
+				}
 				text := gram.Canonical(m2.Toks)
 				if seen[text] {
 					continue
